@@ -9,6 +9,7 @@ Open Scope N_scope.
 Inductive cop :=
 | CInsert (s : series) (id : N)
 | CFlush
+| CBgFlush        (* the table's own periodic flush: the raw items become visible like with a forced flush *)
 | CClear
 | CReopen (b : N)
 (* predicate e (regex atoms read through the index's own translation table), alternative readings of e in which some regex
@@ -40,6 +41,7 @@ Definition check_op (cl cn : bool) (tab : list (N * N)) (i : index) (o : cop) : 
   match o with
   | CInsert s id => let (i', id') := insert slow i s in (i', if id' =? id then [] else [1])
   | CFlush => (fst (step slow i Flush), [])
+  | CBgFlush => (fst (step slow i Flush), [])
   | CClear => (fst (step slow i ClearCache), [])
   | CReopen b => (fst (step slow i (Reopen b)), [])
   | CQuery m e alts ids1 ids2 =>
